@@ -261,113 +261,111 @@ func c20LeafPart(env *mc.Env, s *c20Section, states []int, selPairs [][2]int) {
 			trees[k] = c20LayerTree(lf, comp, it.st[k], k)
 		}
 		for spi, sp := range selPairs {
-			{
-				obj := c20SectionObj(s, trees, sp)
-				text := c20Text(obj)
-				raw, err := c20Parse([]byte(text))
-				if err != nil {
-					panic(err)
+			obj := c20SectionObj(s, trees, sp)
+			text := c20Text(obj)
+			raw, err := c20Parse([]byte(text))
+			if err != nil {
+				panic(err)
+			}
+			c := &c20SingleCase{sec: s, data: map[string]string{s.DataKey: text}, text: text, raw: raw}
+			flats, lays, ok := c20RunSingle(res, agg, l, c, lf.Key)
+			if !ok {
+				continue
+			}
+			// vacuity: which oracle situations did this (passing) case exercise on the leaf under test
+			nontrivial := false
+			for n := 0; n < 3; n++ {
+				got := c20Get(flats[n][s.Name], lf.Key)
+				lay := lays[n][indexOfSection(s)]
+				f := lay.first()
+				def := c20Get(s.DefFlat, lf.Key)
+				clusterSets := c20Strict(lf, it.st[0])
+				lower := def
+				if clusterSets {
+					lower = lf.stCanon(it.st[0], 0)
 				}
-				c := &c20SingleCase{sec: s, data: map[string]string{s.DataKey: text}, text: text, raw: raw}
-				flats, lays, ok := c20RunSingle(res, agg, l, c, lf.Key)
-				if !ok {
-					continue
-				}
-				// vacuity: which oracle situations did this (passing) case exercise on the leaf under test
-				nontrivial := false
-				for n := 0; n < 3; n++ {
-					got := c20Get(flats[n][s.Name], lf.Key)
-					lay := lays[n][indexOfSection(s)]
-					f := lay.first()
-					def := c20Get(s.DefFlat, lf.Key)
-					clusterSets := c20Strict(lf, it.st[0])
-					lower := def
-					if clusterSets {
-						lower = lf.stCanon(it.st[0], 0)
-					}
-					top := -1 // layer whose word decides
-					switch {
-					case f >= 0 && c20Strict(lf, it.st[f+1]):
-						top = f + 1
-						l.Count("node_override_applied", 1)
-						if lf.stCanon(it.st[top], top) != lower {
-							l.Count("node_override_changed_value", 1)
-							nontrivial = true
-						}
-						if it.st[top] == c20StZero && lower != lf.canon(lf.zero()) && lower != c20Absent {
-							l.Count("explicit_zero_at_node_won_over_nonzero", 1)
-						}
-					case clusterSets:
-						top = 0
-						if f >= 0 {
-							l.Count("cluster_value_inherited_under_matching_entry", 1)
-						} else {
-							l.Count("cluster_value_delivered_no_matching_entry", 1)
-						}
-						if lower != def {
-							nontrivial = true
-						}
-						if it.st[0] == c20StZero && def != lf.canon(lf.zero()) && def != c20Absent {
-							l.Count("explicit_zero_at_cluster_won_over_default", 1)
-						}
-					default:
-						l.Count("default_delivered", 1)
-					}
-					_ = top
-					// soft zero written at the deciding position: both outcomes are accepted, which one happened is counted
-					softAt := -1
-					if f >= 0 && lf.Soft && it.st[f+1] == c20StZero {
-						softAt = f + 1
-					} else if (f < 0 || !c20Strict(lf, it.st[f+1])) && lf.Soft && it.st[0] == c20StZero {
-						softAt = 0
-					}
-					if f >= 0 && it.st[f+1] == c20StEmptyParent {
-						softAt = f + 1
-					}
-					if softAt >= 0 {
-						l.Count("soft_zero_cases", 1)
-						if got == zeroFlat(lf) {
-							l.Count("soft_zero_outcome_cleared_or_nothing_to_clear", 1)
-						} else {
-							l.Count("soft_zero_outcome_lower_value_kept", 1)
-						}
-					}
-					for j := 0; j < 2; j++ {
-						if j == f || !c20Strict(lf, it.st[j+1]) {
-							continue
-						}
-						if lf.stCanon(it.st[j+1], j+1) == got {
-							continue // the same value is also the legitimate one: nothing to tell apart
-						}
-						later := false
-						for _, k := range lay.matching {
-							if k == j {
-								later = true
-							}
-						}
-						isInvalid := false
-						for _, k := range lay.invalid {
-							if k == j {
-								isInvalid = true
-							}
-						}
-						switch {
-						case later:
-							l.Count("first_match_wins_checks", 1)
-						case isInvalid:
-							l.Count("invalid_selector_entry_ignored_checks", 1)
-						default:
-							l.Count("leak_checks_non_selected_entry", 1)
-						}
+				top := -1 // layer whose word decides
+				switch {
+				case f >= 0 && c20Strict(lf, it.st[f+1]):
+					top = f + 1
+					l.Count("node_override_applied", 1)
+					if lf.stCanon(it.st[top], top) != lower {
+						l.Count("node_override_changed_value", 1)
 						nontrivial = true
 					}
+					if it.st[top] == c20StZero && lower != lf.canon(lf.zero()) && lower != c20Absent {
+						l.Count("explicit_zero_at_node_won_over_nonzero", 1)
+					}
+				case clusterSets:
+					top = 0
+					if f >= 0 {
+						l.Count("cluster_value_inherited_under_matching_entry", 1)
+					} else {
+						l.Count("cluster_value_delivered_no_matching_entry", 1)
+					}
+					if lower != def {
+						nontrivial = true
+					}
+					if it.st[0] == c20StZero && def != lf.canon(lf.zero()) && def != c20Absent {
+						l.Count("explicit_zero_at_cluster_won_over_default", 1)
+					}
+				default:
+					l.Count("default_delivered", 1)
 				}
-				if nontrivial {
-					ds.Add(text)
+				_ = top
+				// soft zero written at the deciding position: both outcomes are accepted, which one happened is counted
+				softAt := -1
+				if f >= 0 && lf.Soft && it.st[f+1] == c20StZero {
+					softAt = f + 1
+				} else if (f < 0 || !c20Strict(lf, it.st[f+1])) && lf.Soft && it.st[0] == c20StZero {
+					softAt = 0
 				}
-				if i%977 == 0 && spi == 0 {
-					res.Sample(map[string]any{"leaf": lf.Key, "cluster": c20StNames[it.st[0]], "entry1": c20StNames[it.st[1]], "entry2": c20StNames[it.st[2]], "text": text})
+				if f >= 0 && it.st[f+1] == c20StEmptyParent {
+					softAt = f + 1
 				}
+				if softAt >= 0 {
+					l.Count("soft_zero_cases", 1)
+					if got == zeroFlat(lf) {
+						l.Count("soft_zero_outcome_cleared_or_nothing_to_clear", 1)
+					} else {
+						l.Count("soft_zero_outcome_lower_value_kept", 1)
+					}
+				}
+				for j := 0; j < 2; j++ {
+					if j == f || !c20Strict(lf, it.st[j+1]) {
+						continue
+					}
+					if lf.stCanon(it.st[j+1], j+1) == got {
+						continue // the same value is also the legitimate one: nothing to tell apart
+					}
+					later := false
+					for _, k := range lay.matching {
+						if k == j {
+							later = true
+						}
+					}
+					isInvalid := false
+					for _, k := range lay.invalid {
+						if k == j {
+							isInvalid = true
+						}
+					}
+					switch {
+					case later:
+						l.Count("first_match_wins_checks", 1)
+					case isInvalid:
+						l.Count("invalid_selector_entry_ignored_checks", 1)
+					default:
+						l.Count("leak_checks_non_selected_entry", 1)
+					}
+					nontrivial = true
+				}
+			}
+			if nontrivial {
+				ds.Add(text)
+			}
+			if i%977 == 0 && spi == 0 {
+				res.Sample(map[string]any{"leaf": lf.Key, "cluster": c20StNames[it.st[0]], "entry1": c20StNames[it.st[1]], "entry2": c20StNames[it.st[2]], "text": text})
 			}
 		}
 	})
